@@ -188,7 +188,7 @@ def plan(ctx):
     mids = list(meshes)
     cache = {}
     unplaced = 0
-    total_budget = 1500.0 if quick else 6000.0      # estimated CPU seconds of vm_compute
+    total_budget = 1500.0 if quick else 12000.0      # estimated CPU seconds of vm_compute
     spent = 0.0
     for rnd in range(n_rounds):
         for kw in combos:
@@ -684,7 +684,7 @@ def main(ctx):
     ctx.notes['skipped_moment_not_well_conditioned'] = skipped_sing
 
     # 4. correspondence inside Coq
-    model_ok, _, _ = lib.coq_make(['C15/Model.vo'])
+    model_ok, _, _ = lib.coq_make(['C15/Exec.vo'])      # Model.vo + the executable comparison
     corr_fail = 0
     n_corr = len(batch_items) + sum(1 for b in batch_items if b[3] is not None)
     by_id0 = {c['id']: c for c in cases}
@@ -756,7 +756,7 @@ def main(ctx):
                       'does not check', ', '.join(bad), found_input=False,
                       signature={'check': 'proof-broken'})
     if not model_ok and not failures:
-        ctx.violation('tie-broken', {}, 'Model.v compiles', 'does not compile',
+        ctx.violation('tie-broken', {}, 'Model.v and Exec.v compile', 'do not compile',
                       'correspondence C15', found_input=False, signature={'check': 'model-build'})
     return ctx.finish()
 
@@ -791,6 +791,7 @@ def replay(path):
     rcode = 1 if bad else 0
     if kw.get('kernel') is None:
         rows3 = [rows_from_coo(A, c['n']) for A in r['matrices']]
+        lib.coq_make(['C15/Exec.vo'])
         fm, fc, errors, _ = run_coq_batches(ctx, [[(0, c, rows3, rc)]], meshes, vols)
         print('model vs implementation (Coq): matrices', fm.get(0, 'agree'), '; convenience',
               fc.get(0, 'agree' if rc is not None else 'not run'), errors or '')
